@@ -210,6 +210,9 @@ func ReadState(st *stor.Stor, off uint64) *DbState {
 }
 
 func readState(st *stor.Stor, off uint64) (offSchema, offInfo uint64, t int64) {
+	if off+uint64(stateLen) > st.Size() {
+		return 0, 0, 0 // truncated, not a complete state
+	}
 	buf := st.Data(off)[:stateLen]
 	i := len(magic1)
 	if string(buf[:i]) != magic1 {
